@@ -370,6 +370,9 @@ func c05Eval(c *c05Case) (req, impl, verdict string) {
 		verdict = "ok"
 		if d := c05AllDangling(run.out, 1); len(d) > 0 {
 			verdict = fmt.Sprintf("FAIL parse format=%s allowed=%d %s", c.format, len(c.allowed), c05DanglingText(d[0]))
+			if d[0].self == "" && c.verb == "c05parse" && strings.Contains(c.src, "/properties/"+d[0].use.name+"\"") {
+				verdict += " nested-ref=true" // the source has a $ref to a property below a definition, with that name
+			}
 		} else if len(c.allowed) > 0 {
 			full := c05Load(c, nil)
 			if full.status == "ok" && c05IsClosed(full.out) {
@@ -463,7 +466,8 @@ func c05Emit(out *bufio.Writer, c *c05Case) {
 // c05Class: the failure class of a verdict (what has to persist while shrinking)
 var c05ClassRe = regexp.MustCompile(`^FAIL (nameop=\S+|chain lang=\S+ broken-by=\S+ target-dropped=\S+|chain lang=\S+|chain-builders lang=\S+|parse format=\S+|filter-kept (missing|extra)|filter-closed|\S+)`)
 var c05KindRe = regexp.MustCompile(`dangling=\S+ (self|ref|cref|mapping|gmapping|entrypoint)`)
-var c05ViaRe = regexp.MustCompile(`(via=|reached-through=)(\S*)`)
+var c05ViaRe = regexp.MustCompile(`(via=|reached-through=\w+@)(\S*)`)
+var c05ThroughRe = regexp.MustCompile(`reached-through=(\w+)@`)
 
 func c05Class(verdict string) string {
 	m := c05ClassRe.FindString(verdict)
@@ -471,6 +475,9 @@ func c05Class(verdict string) string {
 		return ""
 	}
 	if k := c05KindRe.FindStringSubmatch(verdict); k != nil {
+		m += " " + k[1]
+	}
+	if k := c05ThroughRe.FindStringSubmatch(verdict); k != nil {
 		m += " " + k[1]
 	}
 	if v := c05ViaRe.FindStringSubmatch(verdict); v != nil {
